@@ -68,6 +68,7 @@ def mk_reader(u: U, *, methods=None):
         "_compress": u.bool("compress"),
     }
     return u.obj("WebSocketReader", f, methods or {},
+                 init=(MOD, "WebSocketReader.__init__", (queue, 0, False, False), {}),
                  const=("queue", "_max_msg_size", "_decode_text", "_max_fragments", "_compress"),
                  factories={"_frame_mask": lambda n: SOpt.fresh(n, lambda m: SBytes.fresh(m)),
                             "_exc": lambda n: None, "_decompressobj": lambda n: None})
